@@ -6,7 +6,7 @@
     `condProbM`     = the same with the `functools.cache` memo table threaded through;
   * `Det`, `mkDetector`, `Det.type`, `Det.detect`, `detectCached` = `Detector.__init__`, `type`,
     `detect` (loop to `max_detectable - 1`, remainder to the top) and its per-instance `_cache`;
-  * `treeOcc`, `bsDetect` = `BSLayeredPPNR.detect`: the distribution the SLOS backend returns for
+  * `treeOcc`, `bsDetect`, `bsDetectP` = `BSLayeredPPNR.detect`: the distribution the SLOS backend returns for
     `|n,0,…,0>` entering the beam-splitter tree of `create_circuit()` is *assumed* to be the
     multinomial over the `2^L` leaves with path weights `r^zeros (1-r)^ones` (built here by
     binomial splitting at every node, leaves in the circuit's mode order); each output state is
@@ -220,17 +220,27 @@ def mkBS (L : ℕ) (r : K) : Except String (ℕ × K) :=
   else if r < 0 ∨ 1 < r then .error "AssertionError"
   else .ok (L, r)
 
-/-- `BSLayeredPPNR.detect` of a fresh instance -/
+/-- the click law of the tree at `min_p = 0` (every leaf state kept): what the theorems about the
+tree (`bsTree_half_eq_wires`, …) are stated for -/
 def bsDetect (L : ℕ) (r : K) (n : ℕ) : DetOut K :=
   if n < 2 then .state n else .dist (aggregate (treeOcc r L n))
 
+/-- `SLOSBackend.prob_distribution()` builds its result with `bsd.add(output_state, probability)`: a leaf
+state whose probability is not above `min_p` is dropped BEFORE the click counts are summed -/
+def treeOccP (minP r : K) (L n : ℕ) : Dist (List ℕ) K :=
+  (treeOcc r L n).filter fun e => minP < e.2
+
+/-- `BSLayeredPPNR.detect` of a fresh instance, as coded (at the current `min_p`) -/
+def bsDetectP (minP : K) (L : ℕ) (r : K) (n : ℕ) : DetOut K :=
+  if n < 2 then .state n else .dist (aggregate (treeOccP minP r L n))
+
 /-- `BSLayeredPPNR.detect` on a long-lived instance (state = `_cache`) -/
-def bsInst (L : ℕ) (r : K) (c : DCache K) (n : ℕ) : DCache K × (ℕ × DetOut K) :=
+def bsInst (minP : K) (L : ℕ) (r : K) (c : DCache K) (n : ℕ) : DCache K × (ℕ × DetOut K) :=
   if n < 2 then (c, (n, .state n))
   else match c.get n with
     | some d => (c, (n, .dist d))
     | none =>
-      let d := aggregate (treeOcc r L n)
+      let d := aggregate (treeOccP minP r L n)
       ((n, d) :: c, (n, .dist d))
 
 /-! ### detector lists -/
@@ -282,7 +292,16 @@ def checkHeralds (heralds : List (ℕ × ℕ)) (ds : List (AnyDet K)) : Except S
 def AnyDet.detect (minP : K) : AnyDet K → ℕ → DetOut K
   | .none, n => .state n
   | .det d, n => d.detect minP n
-  | .bs L r, n => bsDetect L r n
+  | .bs L r, n => bsDetectP minP L r n
+
+/-- how many `add` calls (each may drop at most `min_p`) stand behind the per-mode result for `n` photons:
+the loop of `Detector.detect` makes at most `n`; the backend makes one per leaf state of the tree; the other
+kinds make none -/
+def AnyDet.addCount : AnyDet K → ℕ → ℕ
+  | .none, _ => 0
+  | .det .pnr, _ => 0
+  | .det (.wired _ _), n => n
+  | .bs L r, n => (treeOcc r L n).length
 
 /-- the same as a one-mode distribution (`BSDistribution(d)` when `detect` returned a state) -/
 def AnyDet.kernel (minP : K) (d : AnyDet K) (n : ℕ) : Dist ℕ K :=
